@@ -2,6 +2,6 @@
 # run every claimed check (quick) and print exit codes
 cd "$(dirname "$0")/.."
 for id in $(python3 -c "import json; print(' '.join(c['property_id'] for c in json.load(open('MANIFEST.json'))['checks']))"); do
-  s=$(date +%s); ./check $id --tier ${1:-quick} > /tmp/all_$id.log 2>&1; e=$?
-  echo "$id exit=$e $(( $(date +%s) - s ))s $(grep -cE '^(VIOLATION|HARNESS-ERROR)' /tmp/all_$id.log) alarms; $(tail -1 /tmp/all_$id.log | cut -c1-140)"
+  s=$(date +%s); L=${VERIF_LOGDIR:-/tmp}/all_${1:-quick}_$id.log; ./check $id --tier ${1:-quick} > $L 2>&1; e=$?
+  echo "$id exit=$e $(( $(date +%s) - s ))s $(grep -cE "^(VIOLATION|HARNESS-ERROR)" $L) alarms; $(tail -1 $L | cut -c1-140)"
 done
